@@ -1168,7 +1168,15 @@ class _DtypeLint:
                     recvk = [self.kind(fi, n.func.value, env, depth)] if bound else []
                     if bound and c.is_classmethod:
                         recvk = ['scalar']
-                    ks.append(self.fn(c, recvk + argk, depth + 1))
+                    kinds = recvk + argk
+                    # keyword arguments reach the callee's parameters by name
+                    cparams = [a.arg for a in c.node.args.args]
+                    if n.keywords and len(kinds) <= len(cparams):
+                        kinds = kinds + ['scalar'] * (len(cparams) - len(kinds))
+                        for k in n.keywords:
+                            if k.arg in cparams:
+                                kinds[cparams.index(k.arg)] = self.kind(fi, k.value, env, depth)
+                    ks.append(self.fn(c, kinds, depth + 1))
                 if ks:
                     return 'coord' if 'coord' in ks else self._join(ks)
             if short == '_validate' and argk:
